@@ -300,20 +300,25 @@ Proof.
     match goal with |- ok_outcome (?loopf _ _) =>
       assert (HL : forall n s3, env_ok (vars s3) -> ok_outcome (loopf n s3)); [|apply HL; exact H3] end.
     clear st3 H3. induction n as [|n IHn]; intros st3 H3; [exact I|].
-    Opaque binop truthy lookup assign of_bool.
-    cbn beta iota fix.
-    Transparent binop truthy lookup assign of_bool.
-    assert (Kcur : is_str (lookup (vars st3) v) = false) by (apply lookup_kind; assumption).
-    destruct (binop_numbers (if isneg then GreaterOrEqual else LessOrEqual) (lookup (vars st3) v) hi_v Kcur Khi) as [N3 K3].
-    destruct (binop (if isneg then GreaterOrEqual else LessOrEqual) (lookup (vars st3) v) hi_v) as [t|x]; [|cbn; intro Hx; subst; apply N3; reflexivity].
+    Opaque binop truthy lookup assign of_bool touch.
+    cbn beta iota fix zeta. cbn [vars screen].
+    Transparent binop truthy lookup assign of_bool touch.
+    (* the state with the counter read *)
+    assert (H3t : env_ok (touch (vars st3) v)) by (apply touch_ok; exact H3).
+    set (e3 := touch (vars st3) v) in *.
+    assert (Kcur : is_str (lookup e3 v) = false) by (apply lookup_kind; assumption).
+    destruct (binop_numbers (if isneg then GreaterOrEqual else LessOrEqual) (lookup e3 v) hi_v Kcur Khi) as [N3 K3].
+    destruct (binop (if isneg then GreaterOrEqual else LessOrEqual) (lookup e3 v) hi_v) as [t|x]; [|cbn; intro Hx; subst; apply N3; reflexivity].
     pose proof (truthy_sound t (K3 t eq_refl)) as Tt.
-    destruct (truthy t) as [[|]|x]; [|exact H3|cbn; intro Hx; subst; apply Tt; reflexivity].
-    change ((fix block (l : list stmt) (st0 : state) : outcome := match l with [] => Done st0 | x :: t => match exec f x st0 with Done st' => block t st' | o => o end end) body st3) with (blockf f body st3).
-    pose proof (B body st3 Hb H3) as Bb. destruct (blockf f body st3) as [st4| | |]; try exact Bb.
-    assert (Kc4 : is_str (lookup (vars st4) v) = false) by (apply lookup_kind; assumption).
-    destruct (binop_numbers Plus (lookup (vars st4) v) step_v Kc4 Kst) as [N4 K4].
-    destruct (binop Plus (lookup (vars st4) v) step_v) as [nv|x]; [|cbn; intro Hx; subst; apply N4; reflexivity].
-    apply IHn. cbn [vars]. apply assign_ok; [exact Bb|rewrite (K4 nv eq_refl), Hv; reflexivity].
+    destruct (truthy t) as [[|]|x]; [|exact H3t|cbn; intro Hx; subst; apply Tt; reflexivity].
+    change ((fix block (l : list stmt) (st0 : state) : outcome := match l with [] => Done st0 | x :: t => match exec f x st0 with Done st' => block t st' | o => o end end) body (mk_state e3 (screen st3))) with (blockf f body (mk_state e3 (screen st3))).
+    pose proof (B body (mk_state e3 (screen st3)) Hb H3t) as Bb. destruct (blockf f body (mk_state e3 (screen st3))) as [st4| | |]; try exact Bb.
+    assert (H4t : env_ok (touch (vars st4) v)) by (apply touch_ok; exact Bb).
+    set (e4 := touch (vars st4) v) in *.
+    assert (Kc4 : is_str (lookup e4 v) = false) by (apply lookup_kind; assumption).
+    destruct (binop_numbers Plus (lookup e4 v) step_v Kc4 Kst) as [N4 K4].
+    destruct (binop Plus (lookup e4 v) step_v) as [nv|x]; [|cbn; intro Hx; subst; apply N4; reflexivity].
+    apply IHn. cbn [vars]. apply assign_ok; [exact H4t|rewrite (K4 nv eq_refl), Hv; reflexivity].
   - (* SELECT CASE *)
     cbn [wt_stmt] in Hw. destruct (etype e) as [q|] eqn:Et; [|discriminate].
     apply andb_true_iff in Hw. destruct Hw as [Hcases Hels].
